@@ -51,7 +51,8 @@ Next == Step \/ Finish
 Spec == Init /\ [][Next]_vars
 
 Info == LET nb == NB[c] IN
-        IF nb.ok THEN <<"NB", c, TRUE, nb.T, nb.unsat, [x \in 1..Len(nb.X) |-> <<nb.X[x].size, nb.X[x].w, nb.X[x].start, nb.X[x].su>>]>>
+        IF nb.ok THEN <<"NB", c, TRUE, nb.T, nb.unsat, [x \in 1..Len(nb.X) |-> <<nb.X[x].size, nb.X[x].w, nb.X[x].start, nb.X[x].su>>],
+                        nb.rccerr>>
         ELSE <<"NB", c, FALSE, nb.err>>
 
 Report == /\ (verdict = "info") => PrintT(Info)
